@@ -235,7 +235,7 @@ Proof.
   - unfold obind in H. destruct mi as [mi|]; [|discriminate].
     destruct (shape2 b f (unif dr)) eqn:Hs; simpl in H; [|discriminate].
     destruct (length mi =? f)%nat; simpl in H; [|discriminate].
-    destruct (Qle_bool (qsum mi) 0); [discriminate|]. inversion H; subst.
+    inversion H; subst.
     rewrite ent_mask3_feature. pose proof (draw_mask_defined _ _ _ _ eq_refl Hs i j) as E.
     destruct (ent2 (draw_mask (rates dr) (unif dr)) i j).
     + destruct (k <? d)%nat eqn:E3; rewrite ?Nat.ltb_lt, ?Nat.ltb_ge in *; split; try congruence.
@@ -255,7 +255,8 @@ Lemma feature_mixup_inv x y nc mt mi dr xm ym :
   exists b f d xp m3 lams,
     nc <> 0%nat /\ shape3 x = Some (b, f, d) /\ length (rates dr) = b /\ length (perm dr) = b /\
     tgather x (perm dr) = Some xp /\ mask_and_lam mt mi dr b f d = Some (m3, lams) /\
-    mix_targets nc y (perm dr) lams = Some ym /\ xm = mix_features m3 x xp.
+    (exists ym0, mix_targets nc y (perm dr) lams = Some ym0 /\
+                 ym = if lam_is_nan mt mi then YMNaN else ym0) /\ xm = mix_features m3 x xp.
 Proof.
   unfold feature_mixup, obind. destruct (nc =? 0)%nat eqn:Hn; [discriminate|].
   destruct (shape3 x) as [[[b f] d]|] eqn:Hs; [|discriminate].
@@ -266,7 +267,7 @@ Proof.
   destruct (mix_targets nc y (perm dr) lams) as [ym'|] eqn:Ht; [|discriminate].
   intros H; inversion H; subst.
   exists b, f, d, xp, m3, lams. apply Nat.eqb_neq in Hn. apply Nat.eqb_eq in H1. apply Nat.eqb_eq in H2.
-  repeat split; auto.
+  repeat split; auto. exists ym'. split; [exact Ht|reflexivity].
 Qed.
 
 (* ------------------------------------------------------------------ features *)
@@ -277,7 +278,7 @@ Proof.
   intros H E. destruct mt; simpl in *.
   - inversion H; subst. rewrite ent_mask3_ones in E. destruct (_ && _); congruence.
   - unfold obind in H. destruct mi as [mi|]; [|discriminate].
-    destruct (negb _); [discriminate|]. destruct (Qle_bool _ _); [discriminate|].
+    destruct (negb _); [discriminate|].
     inversion H; subst. rewrite ent_mask3_feature in E.
     destruct (ent2 _ i j); [|discriminate]. destruct (k <? d)%nat; congruence.
   - destruct (negb _); [discriminate|]. inversion H; subst.
@@ -290,7 +291,7 @@ Proof.
   intros H. destruct mt; simpl in *.
   - inversion H; reflexivity.
   - unfold obind in H. destruct mi as [mi|]; [|discriminate].
-    destruct (negb _); [discriminate|]. destruct (Qle_bool _ _); [discriminate|].
+    destruct (negb _); [discriminate|].
     inversion H; reflexivity.
   - destruct (negb _); [discriminate|]. inversion H; reflexivity.
 Qed.
@@ -597,7 +598,7 @@ Proof.
   - unfold obind in H. destruct mi as [mi|]; [|discriminate].
     destruct (shape2 b f (unif dr)) eqn:Hs; simpl in H; [|discriminate].
     destruct (length mi =? f)%nat; simpl in H; [|discriminate].
-    destruct (Qle_bool _ _); [discriminate|]. inversion H. rewrite map_length. unfold draw_mask.
+    inversion H. rewrite map_length. unfold draw_mask.
     unfold shape2 in Hs. apply andb_true_iff in Hs. destruct Hs as [Hb _]. apply Nat.eqb_eq in Hb.
     rewrite length_map2; lia.
   - destruct (negb _); [discriminate|]. inversion H; subst. reflexivity.
@@ -645,7 +646,7 @@ Qed.
 
 (* class targets *)
 Lemma mixup_class_target x y nc mt mi dr xm ym :
-  feature_mixup x y nc mt mi dr = Some (xm, ym) -> nc <> 1%nat ->
+  feature_mixup x y nc mt mi dr = Some (xm, ym) -> nc <> 1%nat -> ym <> YMNaN ->
   exists ys rows, y = YIdx ys /\ ym = YMClass rows /\ length rows = length x /\
     forall i row, nth_error rows i = Some row ->
       exists lam p yi yp,
@@ -653,8 +654,9 @@ Lemma mixup_class_target x y nc mt mi dr xm ym :
         nth_error ys i = Some yi /\ nth_error ys p = Some yp /\ (yi < nc)%nat /\ (yp < nc)%nat /\
         row = map2 (cvx lam) (onehot_row nc yi) (onehot_row nc yp).
 Proof.
-  intros H Hn.
+  intros H Hn Hnan.
   destruct (feature_mixup_inv _ _ _ _ _ _ _ _ H) as (b & f & d & xp & m3 & lams & _ & Hs & Hr & Hp & Hg & Hm & Ht & ->).
+  destruct Ht as (ym0 & Ht & Hym). destruct (lam_is_nan mt mi) eqn:Enan; [congruence|]. subst ym0.
   destruct (mix_targets_class_y _ _ _ _ _ Hn Ht) as [ys ->].
   pose proof (mask_and_lam_length _ _ _ _ _ _ _ _ Hr Hm) as Hll.
   assert (Hys : length lams = length ys).
@@ -671,26 +673,21 @@ Qed.
 Lemma mixup_class_distribution x y nc mt mi dr xm rows :
   feature_mixup x y nc mt mi dr = Some (xm, YMClass rows) -> nc <> 1%nat ->
   Forall unit_interval (rates dr) ->
-  (mt = MixFeature -> exists m, mi = Some m /\ Forall (fun v => 0 <= v) m) ->
+  (mt = MixFeature -> exists m, mi = Some m /\ Forall (fun v => 0 <= v) m /\ 0 < qsum m) ->
   forall row, In row rows -> Forall (fun v => 0 <= v) row /\ qsum row == 1.
 Proof.
   intros H Hn Hr Hmi row Hin.
-  assert (Hmi' : mt = MixFeature -> exists m, mi = Some m /\ Forall (fun v => 0 <= v) m /\ 0 < qsum m).
-  { intros ->. destruct (Hmi eq_refl) as (m & -> & Hpos). exists m. repeat split; auto.
-    destruct (feature_mixup_inv _ _ _ _ _ _ _ _ H) as (b & f & d & xp & m3 & lams & _ & _ & _ & _ & _ & Hm & _).
-    simpl in Hm. unfold obind in Hm. destruct (negb _); [discriminate|].
-    destruct (Qle_bool (qsum m) 0) eqn:E; [discriminate|].
-    apply Qnot_le_lt. intros C. apply Qle_bool_iff in C. congruence. }
-  destruct (mixup_class_target _ _ _ _ _ _ _ _ H Hn) as (ys & rows' & -> & Hy & _ & Hrows).
+  assert (Hnan : YMClass rows <> YMNaN) by discriminate.
+  destruct (mixup_class_target _ _ _ _ _ _ _ _ H Hn Hnan) as (ys & rows' & -> & Hy & _ & Hrows).
   inversion Hy; subst rows'. apply In_nth_error in Hin. destruct Hin as [i Hi].
   destruct (Hrows i row Hi) as (lam & p & yi & yp & Hl & _ & _ & _ & Hyi & Hyp & ->).
-  pose proof (mixup_lams_unit mt mi dr Hr Hmi') as HU. rewrite Forall_forall in HU.
+  pose proof (mixup_lams_unit mt mi dr Hr Hmi) as HU. rewrite Forall_forall in HU.
   apply mixed_onehot_distribution; auto. apply HU. eapply nth_error_In; eauto.
 Qed.
 
 (* scalar targets *)
 Lemma mixup_scalar_target x y mt mi dr xm ym :
-  feature_mixup x y 1 mt mi dr = Some (xm, ym) ->
+  feature_mixup x y 1 mt mi dr = Some (xm, ym) -> ym <> YMNaN ->
   exists vals, ym = YMScalar vals /\ length vals = length x /\
     forall i v, nth_error vals i = Some v ->
       exists lam p yi yp,
@@ -698,8 +695,9 @@ Lemma mixup_scalar_target x y mt mi dr xm ym :
         nth_error (scalar_values y) i = Some yi /\ nth_error (scalar_values y) p = Some yp /\
         v = cvx lam yi yp.
 Proof.
-  intros H.
+  intros H Hnan.
   destruct (feature_mixup_inv _ _ _ _ _ _ _ _ H) as (b & f & d & xp & m3 & lams & _ & Hs & Hr & Hp & Hg & Hm & Ht & ->).
+  destruct Ht as (ym0 & Ht & Hym). destruct (lam_is_nan mt mi) eqn:Enan; [congruence|]. subst ym0.
   pose proof (mask_and_lam_length _ _ _ _ _ _ _ _ Hr Hm) as Hll.
   assert (Hys : length lams = length (scalar_values y)).
   { unfold mix_targets in Ht. simpl in Ht. unfold obind in Ht.
@@ -713,21 +711,37 @@ Proof.
 Qed.
 
 (* lambda in feature mode: share of mutual-information mass of the kept columns *)
-Lemma mixup_feature_lambda x y nc mi dr xm ym :
-  feature_mixup x y nc MixFeature (Some mi) dr = Some (xm, ym) ->
-  0 < qsum mi /\
+Lemma mixup_feature_lambda mi dr :
+  0 < qsum mi ->
   forall i lam, nth_error (mixup_lams MixFeature (Some mi) dr) i = Some lam ->
     exists mrow, nth_error (draw_mask (rates dr) (unif dr)) i = Some mrow /\
                  lam == kept_mass mi mrow / qsum mi.
 Proof.
-  intros H.
-  destruct (feature_mixup_inv _ _ _ _ _ _ _ _ H) as (b & f & d & xp & m3 & lams & _ & _ & _ & _ & _ & Hm & _).
-  simpl in Hm. unfold obind in Hm. destruct (negb _); [discriminate|].
-  destruct (Qle_bool (qsum mi) 0) eqn:E; [discriminate|].
-  assert (Hs : 0 < qsum mi). { apply Qnot_le_lt. intros C. apply Qle_bool_iff in C. congruence. }
-  split; [exact Hs|]. intros i lam Hl. simpl in Hl. rewrite nth_error_map in Hl.
+  intros Hs i lam Hl. simpl in Hl. rewrite nth_error_map in Hl.
   destruct (nth_error (draw_mask (rates dr) (unif dr)) i) as [mrow|]; [|discriminate].
   exists mrow. split; [reflexivity|]. inversion Hl. apply lam_feature_share. exact Hs.
+Qed.
+
+(* the target is nan exactly for zero-sum scores in feature mode *)
+Lemma mixup_nan_iff x y nc mt mi dr xm ym :
+  feature_mixup x y nc mt mi dr = Some (xm, ym) ->
+  (ym = YMNaN <-> mt = MixFeature /\ exists m, mi = Some m /\ qsum m == 0).
+Proof.
+  intros H.
+  destruct (feature_mixup_inv _ _ _ _ _ _ _ _ H) as (b & f & d & xp & m3 & lams & Hn & _ & _ & _ & _ & _ & Ht & _).
+  destruct Ht as (ym0 & Ht & ->).
+  assert (Hym0 : ym0 <> YMNaN).
+  { unfold mix_targets, obind in Ht. destruct (nc =? 1)%nat.
+    - destruct (tgather _ _); [|discriminate]. destruct (_ =? _)%nat; [|discriminate]. inversion Ht. discriminate.
+    - destruct y; [|discriminate]. destruct (tgather _ _); [|discriminate]. destruct (mapM _ ys); [|discriminate].
+      destruct (mapM _ l); [|discriminate]. destruct (_ =? _)%nat; [|discriminate]. inversion Ht. discriminate. }
+  unfold lam_is_nan. destruct mt; try (split; [intros E; congruence|intros [E _]; discriminate]).
+  destruct mi as [m|]; [|split; [intros E; congruence|intros [_ (m & E & _)]; discriminate]].
+  destruct (Qeq_bool (qsum m) 0) eqn:E.
+  - split; [|reflexivity]. intros _. split; [reflexivity|]. exists m. split; [reflexivity|].
+    apply Qeq_bool_iff. exact E.
+  - split; [intros E'; congruence|]. intros [_ (m' & Em & Hz)]. inversion Em; subst m'.
+    apply Qeq_bool_iff in Hz. congruence.
 Qed.
 
 (* mixup off: plain labels *)
@@ -749,7 +763,10 @@ Lemma mixup_off_class_target x y nc mi dr xm ym :
     forall i row, nth_error rows i = Some row ->
       exists yi, nth_error ys i = Some yi /\ (yi < nc)%nat /\ Forall2 Qeq row (onehot_row nc yi).
 Proof.
-  intros H Hn. destruct (mixup_class_target _ _ _ _ _ _ _ _ H Hn) as (ys & rows & Hy & Hym & Hlen & Hrows).
+  intros H Hn.
+  assert (Hnan : ym <> YMNaN).
+  { intros E. apply (mixup_nan_iff _ _ _ _ _ _ _ _ H) in E. destruct E; discriminate. }
+  destruct (mixup_class_target _ _ _ _ _ _ _ _ H Hn Hnan) as (ys & rows & Hy & Hym & Hlen & Hrows).
   exists ys, rows. repeat split; auto. intros i row Hi.
   destruct (Hrows i row Hi) as (lam & p & yi & yp & Hl & _ & Hyi & _ & Hlt & _ & ->).
   apply mixup_off_lams in Hl. subst lam. exists yi. repeat split; auto.
@@ -762,7 +779,10 @@ Lemma mixup_off_scalar_target x y mi dr xm ym :
     forall i v, nth_error vals i = Some v ->
       exists yi, nth_error (scalar_values y) i = Some yi /\ v == yi.
 Proof.
-  intros H. destruct (mixup_scalar_target _ _ _ _ _ _ _ H) as (vals & Hym & Hlen & Hvals).
+  intros H.
+  assert (Hnan : ym <> YMNaN).
+  { intros E. apply (mixup_nan_iff _ _ _ _ _ _ _ _ H) in E. destruct E; discriminate. }
+  destruct (mixup_scalar_target _ _ _ _ _ _ _ H Hnan) as (vals & Hym & Hlen & Hvals).
   exists vals. repeat split; auto. intros i v Hi.
   destruct (Hvals i v Hi) as (lam & p & yi & yp & Hl & _ & Hyi & _ & ->).
   apply mixup_off_lams in Hl. subst lam. exists yi. split; [assumption|apply cvx_one].
